@@ -912,6 +912,22 @@ func (w *world) do(st *kernel.Step) {
 		}
 	}
 	switch st.Op {
+	case "recreate":
+		// the removed channel is opened again with the same parameters (hence
+		// the same ID): a new machine, and new peers and parent from the step
+		if !c.removed || c.dead {
+			w.logf("ch%d recreate skipped (not removed)", c.i)
+			return
+		}
+		m, err := channel.NewStateMachine(c.accs[c.own].AccMap, *c.params)
+		if err != nil {
+			panic(fmt.Sprintf("persist harness: NewStateMachine: %v", err))
+		}
+		c.m, c.psm = m, persistence.StateMachine{}
+		c.created, c.removed, c.ref, c.prevStaged, c.discSigned = false, false, nil, nil, false
+		delete(w.lastBytes, c.i)
+		w.res.Count("probe.channel-created-again-after-removal", 1)
+		w.prim(c, "create", st)
 	case "advance":
 		advance()
 	case "open":
